@@ -19,17 +19,18 @@ Definition pentry_of_sx (s : sx) : option pentry :=
    quiescence awaited: labels 116 / 120 instead of 115 / 110); filec = InputPlugin.Commit goes to the real file-input
    jobProvider.commit (labels 118 / 119); bbytes = BatchSizeBytes of the batchers *)
 Record pcfg := { p_procs : Z; p_capacity : Z; p_actions : Z; p_outkind : Z; p_workers : Z; p_count : Z;
-                 p_retry : Z; p_deadq : bool; p_spread : bool; p_early : bool; p_filec : bool; p_bbytes : Z }.
+                 p_retry : Z; p_deadq : bool; p_spread : bool; p_early : bool; p_filec : bool; p_bbytes : Z;
+                 p_real : Z }.      (* option 12: one action is a REAL plugin: 1 join | 2 join_template | 3 k8s multiline action *)
 Definition pcfg_of_sx (s : sx) : option pcfg :=
   match s with
   | SL [SZ procs; SZ _; SZ cap; SZ _; SZ na; SZ ok; SZ w; SZ cnt; SZ _; SZ retry; SZ dq; SZ spread] =>
       Some {| p_procs := procs; p_capacity := cap; p_actions := na; p_outkind := ok; p_workers := w; p_count := cnt;
               p_retry := retry; p_deadq := negb (dq =? 0); p_spread := negb (spread =? 0);
-              p_early := false; p_filec := false; p_bbytes := 0 |}
+              p_early := false; p_filec := false; p_bbytes := 0; p_real := 0 |}
   | SL [SZ procs; SZ _; SZ cap; SZ _; SZ na; SZ ok; SZ w; SZ cnt; SZ _; SZ retry; SZ dq; SZ spread; SZ _] =>
       Some {| p_procs := procs; p_capacity := cap; p_actions := na; p_outkind := ok; p_workers := w; p_count := cnt;
               p_retry := retry; p_deadq := negb (dq =? 0); p_spread := negb (spread =? 0);
-              p_early := false; p_filec := false; p_bbytes := 0 |}
+              p_early := false; p_filec := false; p_bbytes := 0; p_real := 0 |}
   | _ => None
   end.
 
@@ -48,7 +49,8 @@ Definition xopt (case : sx) (k : Z) : Z :=
 Definition with_xopts (case : sx) (c : pcfg) : pcfg :=
   {| p_procs := p_procs c; p_capacity := p_capacity c; p_actions := p_actions c; p_outkind := p_outkind c; p_workers := p_workers c;
      p_count := p_count c; p_retry := p_retry c; p_deadq := p_deadq c; p_spread := p_spread c;
-     p_early := 0 <? xopt case 9; p_filec := (xopt case 8 =? 1) && negb (p_spread c); p_bbytes := xopt case 10 |}.
+     p_early := 0 <? xopt case 9; p_filec := (xopt case 8 =? 1) && negb (p_spread c); p_bbytes := xopt case 10;
+     p_real := xopt case 12 |}.
 
 (* ---- replay through the component LTSs ------------------------------------------------------- *)
 Definition slabel_of (e : pentry) : option slabel :=
@@ -480,6 +482,110 @@ Fixpoint m_filec_go (early : bool) (es : list pentry) (t : fcst) (last38 : list 
 Definition m_filec (c : pcfg) (es : list pentry) : bool :=
   if p_filec c then m_filec_go (p_early c) es [] [] 0 0 [] else no_kind 118 es && no_kind 119 es.
 
+(* ---- C02, producer side of "none is unaccounted for": the hold ledger ---------------------------------- *)
+(* An action that answers Hold keeps the event; the pipeline gets it back only through Propagate, called by that action
+   from a later Do - of the next event of the stream or of the stream's time-out event.  The processor delivers either only
+   while it believes the action busy: processEvent goes on waiting on the stream (blockGet, where the time-out arrives) iff
+   busyActionsTotal > 0, and the mark of an action is set by Hold / Collapse and CLEARED by Pass / Break / Discard /
+   Propagate (processor.go doActions: tryMarkBusy / tryResetBusy).  So an action that holds an event and gives an answer
+   that clears its mark (e.g. Discard for a line that no longer fits into the joined event) is forgotten by the processor:
+   it leaves the stream, no time-out is ever delivered, the held event is neither committed nor dropped, and the events
+   that follow it on the stream are taken by another processor and committed first.  Model/Proc.v identifies "busy" with
+   "holds an event" and sees such a trace break only at the NEXT Do label of the processor (guard of PDo: the busy bit of the
+   label is the model's held_at; proc_step above: a new stream while an event is held) - if there is one.  The ledger keeps
+   the two apart - the event each (processor, action) holds, and the processor's busy mark as the answers set and clear it -
+   and is replayed on the processors' own labels (30 Do / 31 Result / 35 Propagate) of every trace, whatever the actions are
+   (scripted, the real join / join_template, the real k8s multiline action, which is busy WITHOUT holding: it collapses the
+   chunks of a partial line):
+     H1  the busy bit of a Do label is the mark (the processor's bookkeeping is what the answers say);
+     H2  Hold is answered only by an action that holds nothing (P2 of Model/Proc.v);
+     H3  an answer that clears the mark - Pass, Break, Discard - is given only by an action that holds nothing
+         (Pass / Break: P3 of Model/Proc.v; Discard: the seeded class);
+     H4  Propagate(e) comes from the action that holds e, and frees it (P1);
+     H5  a processor that holds an event of stream s takes regular events of s only (it did not leave the stream).
+   Proofs/PipeGlue.v: on every accepted trace a held event's action is marked busy (hl_held_marked: the processor keeps
+   waiting, so the stream's time-out can reach the action), no (processor, action) holds two events, every event ever held
+   is still held or was propagated exactly once (hl_accounting), and nothing held at the end = the propagated events are
+   exactly the held ones (hl_quiescent).  No proofs here. *)
+Definition hkey : Type := (Z * Z)%type.                       (* processor, action index *)
+Record hst := {
+  hl_held : list (hkey * (Z * Z));      (* (processor, action) -> (stream, seq) of the event it holds *)
+  hl_mark : list hkey;                  (* busy marks *)
+  hl_holds : list (Z * Z);              (* history: every event ever held, newest first *)
+  hl_props : list (Z * Z)               (* history: every event propagated, newest first *)
+}.
+Definition hinit : hst := {| hl_held := []; hl_mark := []; hl_holds := []; hl_props := [] |}.
+
+Inductive hlabel :=
+| HDo (p a s kind : Z) (busy : bool)            (* Do of action a on processor p is entered with an event of stream s *)
+| HResult (p a s q : Z) (r : pres)              (* it answered r for event (s, q) *)
+| HPropagate (p a s q : Z).                     (* action a, inside Do, called Propagate with event (s, q) *)
+
+Fixpoint h_find (k : hkey) (l : list (hkey * (Z * Z))) : option (Z * Z) :=
+  match l with [] => None | (k', v) :: r => if key_eqb k' k then Some v else h_find k r end.
+Fixpoint h_remove (k : hkey) (l : list (hkey * (Z * Z))) : list (hkey * (Z * Z)) :=
+  match l with [] => [] | (k', v) :: r => if key_eqb k' k then r else (k', v) :: h_remove k r end.
+Definition h_unmark (k : hkey) (l : list hkey) : list hkey := filter (fun x => negb (key_eqb x k)) l.
+Definition h_marked (k : hkey) (l : list hkey) : bool := existsb (fun x => key_eqb x k) l.
+Definition h_mark (k : hkey) (l : list hkey) : list hkey := if h_marked k l then l else k :: l.
+
+Definition hstep (t : hst) (l : hlabel) : option hst :=
+  match l with
+  | HDo p a s kind busy =>
+      if Bool.eqb busy (h_marked (p, a) (hl_mark t)) &&                                                       (* H1 *)
+         (negb (kind =? 0) ||
+          forallb (fun x : hkey * (Z * Z) => negb (fst (fst x) =? p) || (fst (snd x) <? 0) || (fst (snd x) =? s)) (hl_held t))  (* H5 *)
+      then Some t else None
+  | HResult p a s q r =>
+      let holding := match h_find (p, a) (hl_held t) with Some _ => true | None => false end in
+      match r with
+      | RHold => if holding then None                                                                          (* H2 *)
+                 else Some {| hl_held := ((p, a), (s, q)) :: hl_held t; hl_mark := h_mark (p, a) (hl_mark t);
+                              hl_holds := (s, q) :: hl_holds t; hl_props := hl_props t |}
+      | RCollapse => Some {| hl_held := hl_held t; hl_mark := h_mark (p, a) (hl_mark t); hl_holds := hl_holds t; hl_props := hl_props t |}
+      | RPass | RBreak | RDiscard =>
+          if holding then None                                                                                 (* H3 *)
+          else Some {| hl_held := hl_held t; hl_mark := h_unmark (p, a) (hl_mark t); hl_holds := hl_holds t; hl_props := hl_props t |}
+      end
+  | HPropagate p a s q =>
+      match h_find (p, a) (hl_held t) with
+      | Some v => if key_eqb v (s, q)                                                                          (* H4 *)
+                  then Some {| hl_held := h_remove (p, a) (hl_held t); hl_mark := h_unmark (p, a) (hl_mark t);
+                               hl_holds := hl_holds t; hl_props := (s, q) :: hl_props t |}
+                  else None
+      | None => None
+      end
+  end.
+
+Fixpoint hrun (t : hst) (ls : list hlabel) : option hst :=
+  match ls with
+  | [] => Some t
+  | l :: r => match hstep t l with Some t' => hrun t' r | None => None end
+  end.
+
+(* the ledger labels of a trace: processor labels 30 (a stream, b seq, c action, d kind + 8*busy), 31 (d result),
+   35 (c = index of the NEXT action) *)
+Definition hlabel_of (e : pentry) : option hlabel :=
+  if pok e =? 3 then
+    match pk e with
+    | 30 => Some (HDo (poi e) (pc e) (pa e) (pd e mod 8) (8 <=? pd e))
+    | 31 => match pres_of_Z (pd e) with Some r => Some (HResult (poi e) (pc e) (pa e) (pb e) r) | None => None end
+    | 35 => Some (HPropagate (poi e) (pc e - 1) (pa e) (pb e))
+    | _ => None
+    end
+  else None.
+Definition hlabels (es : list pentry) : list hlabel :=
+  flat_map (fun e => match hlabel_of e with Some l => [l] | None => [] end) es.
+
+(* monitor 17: the trace is a run of the ledger; at quiescence nothing is held any more (early-stop cases: what is held
+   at shutdown stays held - only the safety half) *)
+Definition m_hold_ledger (early : bool) (es : list pentry) : bool :=
+  forallb (fun e => negb (is_k 3 31 e) || match pres_of_Z (pd e) with Some _ => true | None => false end) es &&
+  match hrun hinit (hlabels es) with
+  | Some t => early || match hl_held t with [] => true | _ :: _ => false end
+  | None => false
+  end.
+
 (* ---- C01: commit implies acked, and the frontier ------------------------------------------------ *)
 (* at every input commit of (s, seq): the event had been handed to the output (ProcOut) and, when the
    output batches, committed by a batcher whose send had returned (the batcher monitors check that part);
@@ -659,11 +765,15 @@ Definition lts_ok (atomic : bool) (c : pcfg) (es : list pentry) : bool * sx :=
   let '(cm, cd) := batcher_cfgs c atomic in
   let '(n1, s1, ok1) := if 1 <=? p_outkind c then run_entries cm 0 (init cm) be 0 else (0, init cm, true) in
   let '(n2, s2, ok2) := if p_deadq c then run_entries cd 1 (init cd) be 0 else (0, init cd, true) in
-  let '(n3, ok3) := run_procs (p_actions c) [] es 0 in
-  let '(n4, ok4) := if p_spread c || p_deadq c then (0, true)   (* spread routing / dead queue: recorded findings, not replayed *)
+  (* the k8s multiline action is busy WITHOUT holding an event (Collapse of a partial line's chunk); Model/Proc.v has no such
+     state (busy = holds), so the cases whose real action it is are judged by the hold ledger (monitor 17), which keeps mark
+     and held event apart, and by the other LTSs / monitors - not by the processor, flow and product replays *)
+  let nohold := p_real c =? 3 in
+  let '(n3, ok3) := if nohold then (0, true) else run_procs (p_actions c) [] es 0 in
+  let '(n4, ok4) := if p_spread c || p_deadq c || nohold then (0, true)   (* spread routing / dead queue: recorded findings, not replayed *)
                     else run_flows (p_actions c) (p_outkind c =? 0) {| fl_cur := []; fl_st := [] |} es 0 in
   let '(n5, ok5) := run_charged cinit es 0 in
-  let '(n6, ok6) := if (1 <=? p_outkind c) && negb (p_spread c) && negb (p_deadq c)
+  let '(n6, ok6) := if (1 <=? p_outkind c) && negb (p_spread c) && negb (p_deadq c) && negb nohold
                     then run_pipe cm (p_actions c) {| pp_cur := []; pp_g := ginit cm; pp_ic := [] |} es 0 else (0, true) in
   (ok && negb (scrashed t) && ok1 && ok2 && negb (crashed s1) && negb (crashed s2) && ok3 && ok4 && ok5 && ok6,
    SL [SL [of_bool ok; SZ n; of_bool (scrashed t)]; summary n1 s1 ok1; summary n2 s2 ok2; SL [of_bool ok3; SZ n3]; SL [of_bool ok4; SZ n4]; SL [of_bool ok5; SZ n5];
@@ -698,13 +808,16 @@ Definition quiescent (es : list pentry) : bool := no_kind 103 es.
    12 a stream's commit number moved backwards, 13 input commit of a (source, offset) that was never accepted,
    14 a batcher committed an event its own output never acknowledged (e.g. the main batcher after handing the batch to the dead queue),
    15 a record In() refused reached a stream / the accepted count is not the number of events put into streams,
-   16 the file input fed with the commit notifications hit "offset corruption" / stores something else than the last commit of a stream.
+   16 the file input fed with the commit notifications hit "offset corruption" / stores something else than the last commit of a stream,
+   17 the hold ledger: an action gave an answer that clears its busy mark (Pass / Break / Discard) while it holds an event, answered
+      Hold while holding, propagated an event it does not hold, the processor's busy bit is not what the answers say, a processor
+      took an event of another stream while one of its actions holds one, or an event is still held when the pipeline is idle.
    Early-stop cases (Pipeline.Stop with events in flight) claim no completeness: 4 and 7 keep their safety halves *)
 Definition conservation_mon (c : pcfg) (es : list pentry) : bool :=
   if p_early c then m_conservation_safe es else m_conservation es.
 Definition c02_mon (c : pcfg) (es : list pentry) : list (Z * bool) :=
   [(1, m_no_wedge es); (2, m_commits_increasing es [] []); (3, nodup_keys (input_commits es)); (4, conservation_mon c es);
-   (12, m_scommit_monotone es []); (15, m_admission es); (16, m_filec c es)].
+   (12, m_scommit_monotone es []); (15, m_admission es); (16, m_filec c es); (17, m_hold_ledger (p_early c) es)].
 Definition c01_mon (c : pcfg) (es : list pentry) : list (Z * bool) :=
   [(1, m_no_wedge es); (5, m_frontier es [] [] []);
    (6, (p_outkind c =? 0) ||
